@@ -87,6 +87,19 @@ def run_case(case):
                     r = run_scenario(copy.deepcopy(sc))
                     acc.out["obs"]["failing_positions_enumerated"] += 1
                     acc.add(r, [PROP], sc=sc, cls=lambda r, k=k, err=err, when=when: _cls(r, sname, err, when))
+        # the response of a successful checkpoint call is paginated and the fetch of a following page fails: the same fail-stop
+        # behaviour is required of the checkpoint thread (classification of the outcome is not judged for page fetches)
+        scp = copy.deepcopy(base)
+        scp["pages"] = {"resp_page": 1}
+        rp = run_scenario(copy.deepcopy(scp))
+        npages = sum(1 for e in rp["trace"] if e["kind"] == "api" and e.get("op") == "get_state")
+        for nth in range(1, min(npages, 8 if case.get("stride", 1) == 1 else 4) + 1):
+            sc = copy.deepcopy(scp)
+            sc["faults"] = [{"match": {"op": "get_state", "n_inv": None}, "err": case["errs"][nth % len(case["errs"])], "when": "before", "nth": nth}]
+            r = run_scenario(copy.deepcopy(sc))
+            acc.out["obs"]["failing_page_fetches_enumerated"] = acc.out["obs"].get("failing_page_fetches_enumerated", 0) + 1
+            acc.add(r, [PROP], sc=sc, cls=lambda r, nth=nth: _cls(r, sname, sc["faults"][0]["err"], "page-fetch"))
+        for k in range(1, napi + 1, case.get("stride", 1)):
             # once per position: the signalling thread (Event.set / Queue.put / lock release) is descheduled right after signalling,
             # so a waiter woken by the flag runs before whatever the signaller does next
             sc = copy.deepcopy(base)
@@ -130,7 +143,7 @@ RULE = ("for each of ten program shapes (steps whose results force the overflow 
         "re-submitted by the TimerScheduler while a sibling is held inside its step function, so the failing call is the timer thread's "
         "empty refresh checkpoint; the >6 MB final-result checkpoint; nested parallel/map/child with an invoke) EVERY position of the "
         "checkpoint-call sequence is made the failing call x error class (5xx, 4xx, Invalid Checkpoint Token, non-botocore; all ten "
-        "classes in the thorough tier) x {request lost, response lost}, and once more per position under after-sync perturbation (the signalling thread is descheduled right after Event.set / Queue.put / lock release); plus random programs with a random failing call under yield "
+        "classes in the thorough tier) x {request lost, response lost}, and once more per position under after-sync perturbation (the signalling thread is descheduled right after Event.set / Queue.put / lock release); the fetch of a following page of a paginated checkpoint response fails (first 8 fetches of each shape; fail-stop judged, classification not); plus random programs with a random failing call under yield "
         "injection. Oracle after the first failed call: no further API call; no result/error delivered for an unrecorded outcome; no "
         "at-most-once entry without recorded START; outcome raise (retriable 4xx) or FAILED(CheckpointError) per the classification "
         "pinned by the repository's tests, never SUCCEEDED/PENDING; termination decided by the logical hang rule (identical stack "
